@@ -80,6 +80,65 @@ func HarnessC04Shutdown() {
 	verifReach("C04.shutdown.end")
 }
 
+// HarnessC04ShutdownRace: shutdown begins at an ARBITRARY point of an attempt that is being
+// admitted (the scheduler decides): whenever Do has returned, no stream is attached, and none
+// attaches afterwards.
+func HarnessC04ShutdownRace() {
+	och := make(chan opshell.CLine, 32)
+	ich := make(chan string, 2)
+	b := &Broker{ich: ich, och: och, bidirKey: "bk", evCh: make(chan Event, 16), evListeners: map[chan<- Event]struct{}{}}
+	sl := verifNewLogger()
+	ctx, cancel := context.WithCancel(context.Background())
+	doDone := make(chan struct{})
+	attachedAtReturn := false
+	go func() {
+		b.Do(ctx)
+		b.mu.Lock()
+		attachedAtReturn = b.cancelIn != nil
+		b.mu.Unlock()
+		close(doDone)
+	}()
+	sctx, scancel := context.WithCancel(context.Background())
+	inDone := make(chan struct{})
+	writes := 0
+	go func() {
+		b.ConnectIn(sctx, sl, "a", blockW{&writes}, "id")
+		close(inDone)
+	}()
+	cancel() // shutdown begins, somewhere relative to the attempt
+	verifQuiesce()
+	returned := false
+	select {
+	case <-doDone:
+		returned = true
+	default:
+	}
+	b.mu.Lock()
+	attached := b.cancelIn != nil
+	b.mu.Unlock()
+	ok := !attachedAtReturn && !(returned && attached)
+	if verifCanary() {
+		ok = returned && attached
+	}
+	verifAssert(ok, "C04.shutdown.do-never-returns-while-a-stream-is-attached")
+	// C01's shutdown clause: an attempt made while the program is shutting down is refused -
+	// once shutdown has completed, nothing is attached
+	verifAssert(!(returned && attached) || verifCanary(), "C01.shutdown.nothing-attached-once-shutdown-completed")
+	scancel()
+	verifQuiesce()
+	select {
+	case <-doDone:
+	default:
+		verifAssert(false, "C04.shutdown-finishes-once-streams-ended")
+	}
+	select {
+	case <-inDone:
+	default:
+		verifAssert(false, "C04.stream-ended")
+	}
+	verifReach("C04.shutdownrace.end")
+}
+
 type tagEOF struct{}
 
 func (tagEOF) Read(p []byte) (int, error) { return 0, errStubRead }
